@@ -964,6 +964,8 @@ func (p *Policy) setWhitelistFeeContract(ic *interop.Context, args []stackitem.I
 	i, ok := slices.BinarySearchFunc(cache.whitelistedContracts, c, whitelistedContract.Compare)
 	if !ok {
 		cache.whitelistedContracts = slices.Insert(cache.whitelistedContracts, i, c)
+	} else {
+		cache.whitelistedContracts[i] = c
 	}
 
 	err = ic.AddNotification(p.Hash, "WhitelistFeeChanged", stackitem.NewArray([]stackitem.Item{
